@@ -193,6 +193,30 @@ Theorem C03_step_rename_dir_partial : forall (s : fsys) (sv : sview) (wo : list 
   (fst (rename s (sv_view sv) o p), proj_res Linux (snd (rename s (sv_view sv) o p))) = go_rename s sv o p.
 Proof. exact dstep_rename_dir_new. Qed.
 
+(* Rename of a file or link onto an existing file or link: the DECISION (allowed / refused, errno) is the kernel's.
+   The resulting heaps differ in the order of the destination directory's children (map overwrite vs unlink + add),
+   so only the result is compared.  [distinct_nodes]: C03-RENAME-SAME; the two [no_sticky_refusal]: C03-STICKY *)
+Theorem C03_step_rename_replace_partial : forall (s : fsys) (sv : sview) (wo : list str) (clo : str) (w : list str) (cl : str),
+  dac_hyps s sv -> path_ok s sv SlLstat (wo ++ [clo]) -> path_ok s sv SlLstat (w ++ [cl]) ->
+  source_not_dir s sv (wo ++ [clo]) -> dest_present s sv (w ++ [cl]) -> dest_nondir s sv (w ++ [cl]) ->
+  distinct_nodes s sv (wo ++ [clo]) (w ++ [cl]) ->
+  no_sticky_refusal s sv (wo ++ [clo]) -> no_sticky_refusal s sv (w ++ [cl]) ->
+  let o := abs_path (wo ++ [clo]) in
+  let p := abs_path (w ++ [cl]) in
+  proj_res Linux (snd (rename s (sv_view sv) o p)) = snd (go_rename s sv o p).
+Proof. exact dstep_rename_replace_result. Qed.
+
+(* Chown / Lchown by a non-administrator: where the path resolves and the kernel refuses the change (EPERM), so does
+   MemFS - which refuses ALL such calls, before resolving the path (C03-CHOWN-NONROOT, C03-ERRNO-PRIORITY) *)
+Theorem C03_step_chown_refused_partial : forall (slm : slmode) (s : fsys) (sv : sview) (p : str) (uid gid : Z)
+    (par : nat) (kind : lastk) (name : str) (n : nat) (nd : node),
+  us_admin (v_user (sv_view sv)) = false -> v_idm (sv_view sv) = true ->
+  klookup s sv false (follow_of slm) p = WNode par kind name n -> get (f_heap s) n = Some nd ->
+  chown_refused (node_meta nd) (v_user (sv_view sv)) uid gid = true ->
+  (fst (chown_gen slm s (sv_view sv) p uid gid), proj_res Linux (snd (chown_gen slm s (sv_view sv) p uid gid)))
+  = k_chown (follow_of slm) s sv p uid gid.
+Proof. exact dstep_chown_refused. Qed.
+
 (* the step theorem at the level of worlds, and for histories (induction over call lists): [dcovered] collects the
    hypotheses above per call *)
 Theorem C03_step : forall (phl : bool) (w : world) (vi : nat) (sw : sworld) (c : call),
